@@ -13,7 +13,9 @@ RULE = ("The dilated world of C11 (dilate() timing, listeners, relay, byte-wise 
         "link, timers) with close() issued on one or both sides at a tape-chosen step, so that every Manager x "
         "Connector state is hit, also with eventual-queue callbacks pending. Peer variants: dilating; created "
         "without dilation; never calls dilate(). The peer may turn SILENT at a tape-chosen step (its TCP bytes "
-        "are black-holed, links stay up), including during stabilisation. Subchannel connect()/listen() are issued "
+        "are black-holed, links stay up), including during stabilisation. The transit relay (dialled once at start "
+        "and once more when the peer's hints name it) may be slow: its dials stay in flight until stabilisation "
+        "or for ever. Subchannel connect()/listen() are issued "
         "before and after the versions arrive. Oracle after stabilisation: every side that called close() got its "
         "closed notification exactly once; judged right after the scheduler event in which it fired: that side "
         "owns no listening port, no pending connection attempt, and every TCP connection it owns - selected or "
@@ -36,6 +38,9 @@ def cases(draw, tier="quick"):
                       "never" if peer != "dilating" else draw(st.sampled_from(["start", "tape"]))]
     P["no_listen"] = draw(st.sampled_from([[False, False], [False, False], [True, False], [False, True]]))
     P["relay"] = draw(st.booleans())
+    # a slow relay: dials to it stay in flight until stabilisation (or for ever)
+    P["relay_slow"] = P["relay"] and draw(st.booleans())
+    P["relay_slow_forever"] = P["relay_slow"] and draw(st.booleans())
     P["kills"] = draw(st.sampled_from([0, 0, 1, 2]))
     P["ping_interval"] = [draw(st.sampled_from([1.0, 5.0, 30.0]))] * 2
     P["settle_time"] = 45.0
